@@ -463,9 +463,12 @@ namespace ValueFlow
         }
 
         else if (parent->str() == "?" && tok->str() == ":" && tok == parent->astOperand2() && parent->astOperand1()) {
-            // is condition always true/false?
-            if (parent->astOperand1()->hasKnownValue()) {
-                const Value &condvalue = parent->astOperand1()->values().front();
+            // is condition always true/false? (its first value may be a symbolic one: "equal to another expression")
+            const Value* condKnown = parent->astOperand1()->getKnownValue(Value::ValueType::INT);
+            if (!condKnown)
+                condKnown = parent->astOperand1()->getKnownValue(Value::ValueType::TOK);
+            if (condKnown) {
+                const Value &condvalue = *condKnown;
                 const bool cond(condvalue.isTokValue() || (condvalue.isIntValue() && condvalue.intvalue != 0));
                 if (cond && !tok->astOperand1()) { // true condition, no second operator
                     setTokenValue(parent, condvalue, settings);
